@@ -1,4 +1,4 @@
-/* Design-phase replay (not a check): F1, F2, F3, F6, F7, F8, F17 with a
+/* Design-phase replay (not a check): F1, F2, F3, F6, F7, F8, F17, F18 with a
  * scripted in-memory transport. Build with -DNDEBUG like the library.
  * See README.md.
  */
@@ -227,6 +227,15 @@ int main(int argc, char **argv)
 		for (int i = 0; i < 8; i++)
 			printf(" %02x", out[12 + i]);
 		printf("\n");
+	}
+	if (!strcmp(w, "f18")) {
+		reset_io();
+		s.state = RTR_SYNC;
+		hdr(1, 11, 0, 8); /* PDU type 11 does not exist */
+		int r = rtr_sync(&s);
+
+		printf("F18: PDU of unknown type 11 -> rtr_sync=%d, report of %zu bytes, error code=%u (RFC 8210: 5)\n", r,
+		       out_len, (out[2] << 8) | out[3]);
 	}
 	if (!strcmp(w, "f17")) {
 		reset_io();
